@@ -960,6 +960,28 @@ def it_chain(*parts):
     return out
 
 
+def _opaque_matrix(stem, shape):
+    c = ctx()
+    f = z3.Function(str(c.fresh(stem, "Int")), *([z3.IntSort()] * len(shape)), z3.RealSort())
+    return Tensor(shape, lambda *idx: Sym(f(*[S.z(i) for i in idx])))
+
+
+@model("numpy.linalg.cholesky")
+def np_cholesky(K):
+    """element-level stand-in: some lower-triangular factor (its algebraic contract L L^T = K lives in the abstract
+    matrix layer; contracts that need it do not go through this model)"""
+    if ctx().concrete:
+        raise Unsupported("cholesky in the concrete cross-check")
+    return _opaque_matrix("chol", K.shape)
+
+
+@model("scipy.linalg.solve_triangular")
+def sp_solve_triangular(A, b, lower=False, trans=0):
+    if ctx().concrete:
+        raise Unsupported("solve_triangular in the concrete cross-check")
+    return _opaque_matrix("trisolve", b.shape)
+
+
 @model("inspect.isclass")
 def py_isclass(x):
     from .interp import ClassVal
